@@ -7,6 +7,7 @@ CONSTANTS
   WFull = 2
   RecvMax = 1
   Hows = {"close", "atexit"}
+  MaxClose = 1
 INVARIANT TypeOK
 INVARIANT OneSelect
 INVARIANT StartSelectPre
@@ -17,4 +18,7 @@ INVARIANT NoUnreadyDuringSelect
 INVARIANT NoStaleSleep
 INVARIANT JoinedStopped
 INVARIANT NoDeadlock
+INVARIANT ClosedFdImpliesWake
+INVARIANT PollFindsWake
+INVARIANT NoCrash
 CHECK_DEADLOCK TRUE
